@@ -709,11 +709,22 @@ class Interp:
     def s_With(self, node, st: State) -> Outcome:
         out = Outcome()
         cur = [st]
+        exitstacks: List[Value] = []
         for item in node.items:
             nxt = []
             for s in cur:
                 for v, s2 in self._ev(item.context_expr, s, out):
                     ev = ("enter", v)
+                    if v[0] == "call" and v[1] in (("ext", "contextlib.ExitStack"), ("ext", "contextlib.AsyncExitStack")) and not v[2] and not v[3] and len(node.items) == 1:
+                        # a callback stack: what is registered on it runs, last registered first, on every way out of the block
+                        stk = ("exitstack", v[4])
+                        s2 = s2.set(("H", ("stack", stk)), ("tuple", ()))
+                        if item.optional_vars is not None:
+                            nxt.extend(self.assign(item.optional_vars, stk, s2, out, node))
+                        else:
+                            nxt.append(s2)
+                        exitstacks.append(stk)
+                        continue
                     if v[0] == "obj":
                         try:
                             en_name = "__aenter__" if isinstance(node, ast.AsyncWith) else "__enter__"
@@ -751,10 +762,27 @@ class Interp:
                         managers.append((cm_vals[0], ex_name))
                 except Exception:
                     pass
+        if exitstacks and not managers:
+            managers.append((exitstacks[0], "<callbacks>"))
         if managers:
             cm, ex_name = managers[0]
 
             def leave(s: State, exc_args) -> List[Tuple[Value, State]]:
+                if ex_name == "<callbacks>":
+                    cbs = s.env.get(("H", ("stack", cm)), ("tuple", ()))
+                    states = [s]
+                    for cb in reversed(cbs[1] if cbs[0] == "tuple" else ()):
+                        nxt_ = []
+                        for s_ in states:
+                            if cb[0] == "exitof":
+                                if cb[1][0] == "obj":
+                                    nxt_.extend(s3 for _v, s3 in self.call(("attr", cb[1], "__exit__"), exc_args, (), node, s_, out, None))
+                                else:
+                                    nxt_.extend(s3 for _v, s3 in self.call(("attr", cb[1], "close"), (), (), node, s_, out, None))
+                            else:
+                                nxt_.extend(s3 for _v, s3 in self.call(cb[1], tuple(cb[2]), tuple(cb[3]), node, s_, out, None))
+                        states = nxt_
+                    return [(FALSE, s_) for s_ in states]  # (a callback stack does not swallow the exception: callbacks return nothing)
                 return self.call(("attr", cm, ex_name), exc_args, (), node, s, out, None)
             none3 = (NONE, NONE, NONE)
             for s in o.next:
@@ -1986,6 +2014,27 @@ class Interp:
             if m_ is not None:
                 fi, recv = m_, cv
                 cv = ("func", m_.fq)
+        elif meta is None and cv[0] == "attr" and cv[1][0] == "gen" and cv[2] in ("send", "throw"):
+            # a coroutine-style generator driven by hand (`plan.send(len(data))`): where it is suspended and what it answers is
+            # not modelled - a path analysis that meets it has no verdict
+            raise Undecided(f"a generator is driven with .{cv[2]}() ({show(cv[1])[:50]}): coroutine-style generators are not modelled")
+        elif cv in (("ext", "contextlib.ExitStack"), ("ext", "contextlib.AsyncExitStack")) and not args and not kwargs:
+            return [(("call", cv, (), (), self.tag(node)), st)]  # creating an empty callback stack does nothing (and does not raise)
+        elif meta is None and cv[0] == "attr" and cv[1][0] == "exitstack":
+            key = ("H", ("stack", cv[1]))
+            cur_ = st.env.get(key, ("tuple", ()))
+            if cur_[0] != "tuple" or any(a[0] == "star" for a in args) or any(k == "**" for k, _ in kwargs):
+                raise Undecided("ExitStack used in a way the engine does not model")
+            if cv[2] in ("callback", "push_async_callback") and args:
+                return [(args[0], st.set(key, ("tuple", cur_[1] + (("partial", args[0], tuple(args[1:]), tuple(kwargs)),))))]
+            if cv[2] in ("enter_context", "enter_async_context") and len(args) == 1 and not kwargs:
+                cm_ = args[0]
+                st_ = st.set(key, ("tuple", cur_[1] + (("exitof", cm_),)))
+                if cm_[0] == "obj":
+                    en_ = "__aenter__" if cv[2] == "enter_async_context" else "__enter__"
+                    return self.call(("attr", cm_, en_), (), (), node, st_, out, None)
+                return [(("enter", cm_), st_)]
+            raise Undecided(f"ExitStack.{cv[2]} is not modelled")
         elif meta is None and cv[0] == "partial":
             return self.call(cv[1], tuple(cv[2]) + tuple(args), tuple(cv[3]) + tuple(kwargs), node, st, out, None)
         elif cv == ("ext", "functools.partial") and args and not any(a[0] == "star" for a in args) and not any(k == "**" for k, _ in kwargs):
@@ -2013,6 +2062,14 @@ class Interp:
                     if alt not in vals_:
                         vals_.append(alt)
                 return [(("comp", "gen", vals_[0] if len(vals_) == 1 else ("phi", tuple(vals_)), args[1], ()), st)]
+        if meta is None and cv[0] == "attr" and cv[2] == "update" and not args and kwargs and all(k_ != "**" for k_, _v in kwargs) and cv[1][0] in ("param", "local", "attr"):
+            # m.update(K=v, ...) stores every keyword like m["K"] = v does, in keyword order
+            st_ = st
+            for k_, v_ in kwargs:
+                key = ("sub", cv[1], ("const", k_))
+                st_ = self.client.on_store(self, key, v_, node, st_)
+                st_ = st_.set(("H", key), v_)
+            return [(NONE, st_)]
         if meta is None and cv[0] == "attr" and cv[2] == "update" and len(args) == 1 and not kwargs and args[0][0] == "dict" and args[0][1] \
                 and all(k_ is not None and k_[0] == "const" for k_, _v in args[0][1]):
             # m.update({"k": v, ...}) stores every item like m["k"] = v does (MutableMapping.update goes through __setitem__)
@@ -2235,6 +2292,18 @@ class Interp:
             for nm, v in captured:
                 if ("L", no, nm) not in env:
                     env[("L", no, nm)] = v
+            if fi.parent is not None:
+                # late binding: a free variable that the enclosing function bound only AFTER the nested `def` (push_future = ... below
+                # `def stop_relay`) is looked up when the closure runs - in the enclosing frame, if that frame is still executing
+                fr_ = next((f_ for f_ in reversed(self.frames[:-1]) if f_.fn is fi.parent), None)
+                if fr_ is not None:
+                    try:
+                        free_ = _free_names(fi.node)
+                    except Exception:
+                        free_ = set()
+                    for nm in free_:
+                        if ("L", no, nm) not in env and ("L", fr_.no, nm) in st.env:
+                            env[("L", no, nm)] = st.env[("L", fr_.no, nm)]
             s0 = State(env, st.facts, st.cs)
             s0 = self.client.on_enter(self, fi, s0)
             self.inlined.append(fi.fq)
